@@ -59,9 +59,13 @@ Lemma jres_eqb_eq a b : jres_eqb a b = true <-> a = b.
 Proof. apply res_eqb_eq. apply jpair_eqb_eq. Qed.
 
 (* ---- well-formed cases: what [holds] demands of the case itself -------------------------- *)
+(* a single-byte codec table must keep \n and \r (obligation C19_sbcs_ok for the regenerated ones) *)
+Definition mode_ok (m : fmode) : bool := match m with TextTable tbl => table_ok tbl | _ => true end.
+
 Definition c19_wf (k : c19_case) : bool :=
   match k with
-  | CRev _ _ _ rruns => negb (is_nil rruns) && forallb (fun r => 1 <=? fst r) rruns
+  | CRev _ m _ rruns => mode_ok m && negb (is_nil rruns) && forallb (fun r => 1 <=? fst r) rruns
+  | CJsonl _ m _ _ _ => mode_ok m
   | _ => true
   end.
 
@@ -73,6 +77,7 @@ Definition rev_value (m : fmode) (c : text) (p : nat) : res (list text) :=
   match m with
   | Binary | TextLatin1 => Ok (ril_tail (firstn p c))
   | TextUtf8 => match decode_all (ril_tail (firstn p c)) with Some ts => Ok ts | None => Raise ValueError end
+  | TextTable tbl => match sb_decode_all tbl (ril_tail (firstn p c)) with Some ts => Ok ts | None => Raise ValueError end
   end.
 
 Lemma rev_model_value m c bs p : (1 <= bs)%nat -> reverse_iter_lines m c bs p = rev_value m c p.
@@ -89,9 +94,9 @@ Proof.
   rewrite (H x (or_introl eq_refl)), (H y (or_intror I)). apply lres_eqb_eq. reflexivity.
 Qed.
 
-Lemma rev_value_spec m c p : rev_spec_ok m (firstn p c) (rev_value m c p) = true.
+Lemma rev_value_spec m c p : mode_ok m = true -> rev_spec_ok m (firstn p c) (rev_value m c p) = true.
 Proof.
-  unfold rev_spec_ok, rev_value. set (pre := firstn p c).
+  intros MO. unfold rev_spec_ok, rev_value. set (pre := firstn p c).
   destruct m.
   - destruct (no_lone_cr pre) eqn:D; [|reflexivity]. cbn [negb orb].
     rewrite ril_tail_spec by exact D. apply lres_eqb_eq. reflexivity.
@@ -102,6 +107,9 @@ Proof.
     rewrite ril_tail_spec by exact D. apply lres_eqb_eq. reflexivity.
   - destruct (no_lone_cr pre) eqn:D; [|reflexivity]. cbn [negb orb].
     rewrite ril_tail_spec by exact D. apply lres_eqb_eq. reflexivity.
+  - cbn [mode_ok] in MO. destruct (sb_decode tbl pre) as [t|] eqn:U; [|reflexivity].
+    destruct (no_lone_cr t) eqn:D; [|reflexivity]. cbn [negb orb].
+    rewrite (sb_ril_tail tbl MO pre t U). rewrite ril_tail_spec by exact D. apply lres_eqb_eq. reflexivity.
 Qed.
 
 (* ---- JSON Lines ------------------------------------------------------------------------------- *)
@@ -160,10 +168,10 @@ Lemma jsonl_spec_on_outside (loads : text -> option jval) ws ie t f r :
   no_lone_cr t = false -> jsonl_spec_on loads ws ie t f r = true.
 Proof. intros H. unfold jsonl_spec_on. rewrite H. reflexivity. Qed.
 
-Lemma jsonl_model_meets_spec m ie c :
+Lemma jsonl_model_meets_spec m ie c : mode_ok m = true ->
   jsonl_spec_ok m ie c (jsonl_iter mini_loads m ie false c) (jsonl_iter mini_loads m ie true c) = true.
 Proof.
-  unfold jsonl_spec_ok. destruct m.
+  intros MO. unfold jsonl_spec_ok. destruct m.
   - destruct (no_lone_cr c) eqn:D; [|apply jsonl_spec_on_outside; exact D].
     rewrite (jsonl_binary_forward mini_loads mini_bytes_lf mini_bytes_crlf c ie D).
     rewrite (jsonl_binary_reverse mini_loads c ie D). apply jsonl_spec_on_sound.
@@ -174,6 +182,9 @@ Proof.
     rewrite (jsonl_text_reverse mini_loads t ie Sc D). apply jsonl_spec_on_sound.
   - destruct (no_lone_cr c) eqn:D; [|apply jsonl_spec_on_outside; exact D].
     destruct (jsonl_latin1 mini_loads mini_loads_lf c ie D) as [F R]. rewrite F, R. apply jsonl_spec_on_sound.
+  - cbn [mode_ok] in MO. destruct (sb_decode tbl c) as [t|] eqn:U; [|reflexivity].
+    destruct (no_lone_cr t) eqn:D; [|apply jsonl_spec_on_outside; exact D].
+    destruct (jsonl_table mini_loads tbl MO mini_loads_lf c t ie U D) as [F R]. rewrite F, R. apply jsonl_spec_on_sound.
 Qed.
 
 Theorem verdict_sound : alts_ok gen_breaks = true ->
@@ -189,7 +200,7 @@ Proof.
   - (* primitives: nothing demanded *)
     reflexivity.
   - (* reverse_iter_lines *)
-    cbn [c19_wf] in W. apply andb_true_iff in W as [W1 W2].
+    cbn [c19_wf] in W. apply andb_true_iff in W as [W1 W2]. apply andb_true_iff in W1 as [W0 W1].
     set (c := expand rc) in *. set (p := pos_of c pos) in *.
     set (runs := map (fun r => (bs_nat c (fst r), xres (snd r))) rruns) in *.
     assert (V : forall r, In r runs -> (1 <= fst r)%nat /\ snd r = rev_value m c p).
@@ -203,10 +214,10 @@ Proof.
     + apply (all_same_const _ (rev_value m c p)). intros x I. apply in_map_iff in I as [r [E I]]. subst x.
       apply V. exact I.
     + apply forallb_forall. intros r I. apply Nat.leb_le. apply V. exact I.
-    + apply forallb_forall. intros r I. rewrite (proj2 (V r I)). apply rev_value_spec.
+    + apply forallb_forall. intros r I. rewrite (proj2 (V r I)). apply rev_value_spec. exact W0.
     + unfold runs. destruct rruns; [discriminate|reflexivity].
   - (* JSONLIterator *)
     apply andb_true_iff in A as [A A3]. apply andb_true_iff in A as [A1 A2].
     apply jres_eqb_eq in A2. apply jres_eqb_eq in A3.
-    rewrite A1. cbn [andb]. rewrite <- A2, <- A3. apply jsonl_model_meets_spec.
+    rewrite A1. cbn [andb]. rewrite <- A2, <- A3. apply jsonl_model_meets_spec. exact W.
 Qed.
